@@ -15,6 +15,9 @@ CHECKS = {
  "C06": ("model_checking", "explicit-state BFS over the real token API in virtual time (E1)",
          "All histories (quick depth 4, thorough depth 6) of create / use / authorize / remove / age / tamper over two tokens and two keys run on the real code under a frozen virtual clock with exact boundary ages (lifetime-1ns, lifetime, lifetime+1ns), for storage wrapper off/on x three maximum lifetimes; a successful use must be of an issued, unconsumed token within the lifetime counted from the sealed creation instant, by a key without a record; failed uses must create no record; stored bytes must not contain the HMAC key or the token.",
          "The tie age == lifetime is left unconstrained. One known finding (downgrade edit) is listed in known_findings.json.", "6/C06", "E1"),
+ "C08": ("model_checking", "exhaustive order-type enumeration (E4) + explicit-state BFS of rotation histories in virtual time (E1) on the real rotation code",
+         "Every weak ordering of the four stored validity instants and now (well-formed windows, at 1h and at 1ns spacing, so exact ties and +-1ns are cases) x lifetime/skew/reinitialize/clock configurations is run through the real RotateRootCertificates; the action taken must be one the property's decision table allows, promoted roots must be byte-identical, minted windows must equal now+skew..now+lifetime+skew shifted by exactly half the remaining life (frozen clock => equality), returned == reloaded, both roots self-signed CAs. Rotation/advance histories from empty storage are searched breadth-first with the same oracle.",
+         "Ties may be decided either way; ill-formed windows and sub-2ns lifetime+skew are excluded as unreachable/meaningless.", "6/C08", "E4+E1"),
  "C11": ("exploration", "bounded-exhaustive input enumeration (E4) of the real EncryptMessage/DecryptMessage",
          "All 8x8 sender/receiver key agreements in both directions for 5 message types x 3 sizes, all 8x8x8 current/previous receiver combinations, and for one envelope per message kind every single-bit flip, every truncation, every short BlobInfo, field deletions and all 1- and 2-byte envelopes are decrypted by the real code; the oracle is the property's (round trip iff secret and key id match; mutated => error or the original plaintext; never a panic).",
          "Cryptographic strength of X25519/AES-GCM is trusted; multi-byte random mutations are not claimed.", "6/C11", "E4"),
